@@ -43,7 +43,11 @@ def install(c):
             raise Unsupported("layout-free op on a tensor with a time axis")
         return x
 
+    relog = []
+    c.rearrange_log = relog
+
     def rearrange(x, pattern, **axes):
+        relog.append((pattern, dict(axes)))
         flat(x)
         lhs, rhs = pattern.split("->")
         if _names(lhs) != _names(rhs):
@@ -140,3 +144,28 @@ def synapse_ctor(c, log):
         return syn
 
     return Model(build, "SynapseConstructor")
+
+
+# ----------------------------------------------------------------------- symbolic reading of an einops pattern
+def parse_side(side):
+    """'b (c kh kw) l ...' -> ['b', ['c', 'kh', 'kw'], 'l', '...']"""
+    out, cur_group = [], None
+    for tok in re.findall(r"\(|\)|\.\.\.|[A-Za-z_][A-Za-z_0-9]*|1", side):
+        if tok == "(":
+            cur_group = []
+        elif tok == ")":
+            out.append(cur_group)
+            cur_group = None
+        elif cur_group is not None:
+            cur_group.append(tok)
+        else:
+            out.append(tok)
+    return out
+
+
+def composite_index(names, idx, size):
+    """row-major position inside a composite axis '(a b c)': ((i_a) * n_b + i_b) * n_c + i_c"""
+    r = None
+    for n in names:
+        r = idx[n] if r is None else r * size[n] + idx[n]
+    return r if r is not None else z3.IntVal(0)
